@@ -370,6 +370,47 @@ def sh_cross(shadows, spec, e):
         dst[n] = copy.deepcopy(src[n])
 
 
+def gen_clone(rng, spec, shadows):
+    """cfg_j<p>.load_tree(cfg_i<p>.to_tree()) (or through dumps/loads json)"""
+    if len(shadows) < 2:
+        return None
+    i, j = rng.sample(range(len(shadows)), 2)
+    out = []
+    targets(shadows[i], spec, [], out)
+    paths = [p for p, kind, sp in out if kind == "cfg" and isinstance(sh_nav(shadows[j], p), CfgS)
+             and not any(s_[0] == "i" for s_ in p)]
+    if not paths:
+        return None
+    path = [] if rng.random() < 0.7 else rng.choice(paths)
+    return ("clone", i, j, path, rng.choice(["tree", "tree", "json"]))
+
+
+def sh_clone(shadows, e):
+    _, i, j, path, _v = e
+    src = sh_nav(shadows[i], path)
+    dst = sh_nav(shadows[j], path)
+    if isinstance(src, CfgS) and isinstance(dst, CfgS):
+        for k_, v_ in copy.deepcopy(src).items():
+            dst[k_] = v_
+
+
+def clone_schema():
+    """kinds whose to_tree() is fresh at every depth (untyped containers hold scalars only)"""
+    it_s = ("sub", False, [("v", ("list", None, ("tree", [1]))), ("w", ("dict", None, ("tree", {"k": 1})))], "schema", 1)
+    fields = [
+        ("d", ("dict", None, ("tree", {"k": 1, "z": "s"}))),
+        ("u", ("list", None, ("tree", [1, 2]))),
+        ("tld", ("list", ("dict", None, None), ("tree", [{"a": 1}]))),
+        ("tl", ("list", ("any", None, "int"), ("tree", [1]))),
+        ("td", ("dict", ("any", None, "int"), ("tree", {"k": 1}))),
+        ("tdl", ("dict", ("list", None, None), ("tree", {"k": [1]}))),
+        ("sub", ("sub", False, [("d", ("dict", None, ("tree", {"k": 1}))), ("l", ("list", None, ("call", [3])))], "schema", 2)),
+        ("items", ("list", it_s, ("tree", [{"v": [5]}]))),
+        ("n", ("any", ("tree", 3), "int")),
+    ]
+    return ("sub", True, fields, "schema", 0)
+
+
 # the witness shapes of DESIGN.md 1.1 F30 / probes/camp6.py, plus tuples (F47) and a reused item type
 def matrix_schema():
     it_s = ("sub", False, [("v", ("list", None, ("tree", [1]))), ("n", ("any", ("tree", 0), "int"))], "schema", 1)
@@ -438,6 +479,28 @@ def generate(rng, tier):
         cases.append({"schema": ms, "kind": "matrix", "events": [
             ("build",), ("build",), ("op", 0, ("set", [], "x1", [1, {"a": [2]}])), ("read", 0, rk), ("read", 1, rk),
             ("op", 0, ("set", [("a", "cts"), ("i", 0)], "x2", 5)), ("read", 0, rk), ("build",)]})
+    # clone: cfg_1.load_tree(cfg_0.to_tree()), then in-place mutations on either side at every depth
+    cs = clone_schema()
+    ctg = []
+    targets(default_shadow(cs), cs, [], ctg)
+    for path, kind, sp in ctg:
+        if kind == "cfg":
+            continue
+        if kind == "list":
+            v = {"dict": {"a": 9}, "list": [9], "any": 9, "sub": {}}[sp[0]] if sp else 9
+            mut = ("append", path, v)
+        else:
+            v = {"dict": {"a": 9}, "list": [9], "any": 9, "sub": {}}[sp[0]] if sp else 9
+            mut = ("dset", path, "k", v)
+        for variant in ("tree", "json"):
+            cases.append({"schema": cs, "kind": "matrix", "events": [
+                ("build",), ("build",), ("op", 0, mut), ("clone", 0, 1, [], variant), ("op", 1, mut), ("op", 0, mut)]})
+    cases.append({"schema": cs, "kind": "matrix", "events": [
+        ("build",), ("build",), ("op", 0, ("dset", [("a", "sub"), ("a", "d")], "q", 4)), ("clone", 0, 1, [("a", "sub")], "tree"),
+        ("op", 1, ("dset", [("a", "sub"), ("a", "d")], "r", 5)), ("op", 0, ("set", [], "x1", 7)), ("clone", 0, 1, [], "tree"),
+        ("op", 1, ("set", [], "x1", 8))]})
+    cases.append({"schema": ms, "kind": "matrix", "events": [("build",), ("build",), ("clone", 0, 1, [], "tree"),
+                                                             ("op", 1, ("append", [("a", "c"), ("i", 0)], 9))]})
     for kind in ("schema", "ct"):
         fs = f46_schema(kind)
         cases.append({"schema": fs, "events": [("build",), ("build",), ("op", 0, ("set", [("a", "items"), ("i", 0)], "n", 9))],
@@ -445,8 +508,10 @@ def generate(rng, tier):
         cases.append({"schema": fs, "events": [("build",), ("op", 0, ("append", [("a", "items"), ("i", 0), ("a", "v")], 7)),
                                                ("build",)], "kind": "f46"})
     nrand = 700 if tier == "quick" else 12000
-    for _ in range(nrand):
-        spec = gen_schema(rng)
+    nclone = 120 if tier == "quick" else 2000
+    for it_ in range(nrand + nclone):
+        cloney = it_ >= nrand                # histories around clones, on a schema of the copied kinds
+        spec = clone_schema() if cloney else gen_schema(rng)
         shadows = [default_shadow(spec)]
         events = [("build",)]
         if rng.random() < 0.6:
@@ -462,6 +527,12 @@ def generate(rng, tier):
             if r < 0.12:
                 events.append(("read", rng.randrange(len(shadows)), rng.choice(READS)))
                 continue
+            if 0.24 <= r < (0.5 if cloney else 0.32):
+                e = gen_clone(rng, spec, shadows)
+                if e is not None:
+                    sh_clone(shadows, e)
+                    events.append(e)
+                    continue
             if r < 0.24:
                 e = gen_cross(rng, spec, shadows, i)
                 if e is not None:
@@ -473,7 +544,7 @@ def generate(rng, tier):
             events.append(("op", i, o))
         if rng.random() < 0.5:
             events.append(("build",))
-        cases.append({"schema": spec, "events": events, "kind": "random"})
+        cases.append({"schema": spec, "events": events, "kind": "random-clone" if cloney else "random"})
     return cases
 
 
@@ -543,7 +614,8 @@ def g_op(o):
 
 def gcase(c):
     evs = []
-    for e in c["events"]:
+    skipped = c.get("_skip", [])
+    for n_, e in enumerate(c["events"]):
         if e[0] == "build":
             evs.append("XE EBuild")
         elif e[0] == "op":
@@ -552,6 +624,11 @@ def gcase(c):
             evs.append("XCross %d%%nat %d%%nat %s %s" % (e[1], e[2], g_path(e[3]), g_str(e[4])))
         elif e[0] == "read":
             evs.append("XRead")
+        elif e[0] == "clone":
+            if n_ in skipped:
+                evs.append("XRead")      # origin holds a value the library does not copy at every depth: not executed
+            else:
+                evs.append("XClone %d%%nat %d%%nat %s" % (e[1], e[2], g_path(e[3])))
         else:
             raise Broken("bad event %r" % (e,))
     return "(%s, [%s])" % (g_fld(c["schema"]), ";".join(evs))
@@ -803,6 +880,83 @@ def _read(cfg, schema, kind):
         raise Broken("bad observer %r" % (kind,))
 
 
+def _scalar_only(v):
+    if isinstance(v, (list, dict)):
+        return False
+    if isinstance(v, tuple):
+        return all(_scalar_only(x) for x in v)
+    return True
+
+
+def _has_tuple(v):
+    if isinstance(v, tuple):
+        return True
+    if isinstance(v, dict):
+        return any(_has_tuple(x) for x in v.values())
+    if isinstance(v, list):
+        return any(_has_tuple(x) for x in v)
+    return False
+
+
+def _fresh_value(field, v):
+    """does to_tree() give a fresh container at every depth for value v of this field (see reg_C13 assumptions)"""
+    import cincoconfig as cc
+    from cincoconfig.core import Config, AnyField
+    if isinstance(v, Config):
+        return _clone_safe(v)
+    if isinstance(field, cc.ListField):
+        if v is None:
+            return field.field is None            # to_python(None) of a typed list gives an empty proxy
+        if not isinstance(v, list):
+            return False
+        if field.field is None or isinstance(field.field, AnyField):
+            return all(_scalar_only(x) for x in v)
+        return all(_fresh_value(field.field, x) for x in v)
+    if isinstance(field, cc.DictField):
+        if v is None:
+            return not field._use_proxy
+        if not isinstance(v, dict):
+            return False
+        if not field._use_proxy:
+            return all(_scalar_only(x) for x in v.values())
+        return all(_fresh_value(field.value_field, x) for x in v.values())
+    if _schema_of(field) is not None:
+        return False                              # a configuration position holding something else
+    return _scalar_only(v)
+
+
+def _clone_safe(cfg):
+    for k, v in cfg._data.items():
+        f = cfg._get_field(k)
+        if f is None or not _fresh_value(f, v):
+            return False
+    return True
+
+
+def _clone(cfgs, e):
+    """returns False when the clone is not executed (origin outside the copied kinds)"""
+    from cincoconfig.core import Config
+    _, i, j, path, variant = e
+    src = _nav(cfgs[i], path)
+    dst = _nav(cfgs[j], path)
+    if not isinstance(src, Config) or not isinstance(dst, Config):
+        raise LookupError("not a configuration")
+    if not _clone_safe(src) or (variant == "json" and _has_tuple(_snap(src))):
+        return False
+    if variant == "json":
+        dst.loads(src.dumps("json"), "json")
+    else:
+        dst.load_tree(src.to_tree())
+    return True
+
+
+def _share(x, y):
+    ax, ay = {}, {}
+    _containers(x, ax)
+    _containers(y, ay)
+    return [type(ax[i_]).__name__ for i_ in ax if i_ in ay]
+
+
 def _cross(cfgs, e):
     from cincoconfig.core import Config
     _, i, j, path, n = e
@@ -826,6 +980,7 @@ def impl(c):
         c["_stats"] = stats
         return ("schema-error", type(e).__name__)
     cfgs = []
+    skip = []
     names0 = _names(schema)
     opts0 = _options(schema)
     dfl0 = [_snap(d) for d in _defaults(schema)]
@@ -838,19 +993,29 @@ def impl(c):
             except Exception as ex:  # noqa
                 c["_viol"] = viol
                 c["_stats"] = stats
+                c["_skip"] = skip
                 return ("build-error", type(ex).__name__)
             snaps.append(_snap(cfgs[-1]))
             dicts.append(_plain(cc.asdict(cfgs[-1])))
             target = len(cfgs) - 1
         else:
-            target = e[1]
-            if target >= len(cfgs) or (e[0] == "cross" and e[2] >= len(cfgs)):
+            target = e[2] if e[0] == "clone" else e[1]
+            if target >= len(cfgs) or (e[0] in ("cross", "clone") and max(e[1], e[2]) >= len(cfgs)):
                 raise Broken("event addresses a configuration that does not exist")
             try:
                 if e[0] == "op":
                     _apply(cfgs[target], e[2])
                 elif e[0] == "cross":
                     _cross(cfgs, e)
+                elif e[0] == "clone":
+                    if not _clone(cfgs, e):
+                        skip.append(n)
+                        stats["skipped"] = stats.get("skipped", 0) + 1
+                    else:
+                        stats["cloned"] = stats.get("cloned", 0) + 1
+                        for tn in _share(cfgs[e[1]], cfgs[e[2]]):
+                            viol.append("event %d: after cloning configuration %d into %d through %s they share a mutable %s object"
+                                        % (n, e[1], e[2], "to_tree/load_tree" if e[4] == "tree" else "dumps/loads", tn))
                 else:
                     _read(cfgs[target], schema, e[2])
                 stats["ok"] += 1
@@ -903,6 +1068,7 @@ def impl(c):
                 viol.append("configuration %d shares a mutable %s object with a schema default" % (owners[i_], type(acc[i_]).__name__))
     c["_viol"] = sorted(set(viol))
     c["_stats"] = stats
+    c["_skip"] = skip
     return ([_snap(x) for x in cfgs], [_snap(d) for d in _defaults(schema)], _names(schema))
 
 
@@ -930,6 +1096,9 @@ def tags(c, obs):
             t.add("op:cross-assign")
         elif e[0] == "read":
             t.add("read:" + e[2])
+        elif e[0] == "clone":
+            seen_op = True
+            t.add("op:clone-" + e[4])
         elif e[0] == "op":
             seen_op = True
             t.add("op:" + e[2][0])
@@ -954,6 +1123,10 @@ def tags(c, obs):
     st = c.get("_stats", {})
     if st.get("err"):
         t.add("op-raised")
+    if st.get("skipped"):
+        t.add("clone-skipped")
+    if st.get("cloned"):
+        t.add("clone-executed")
     return t
 
 
